@@ -26,6 +26,9 @@ pub struct SchedRun {
     /// set when a client neither parked nor reported (panic, deadlock)
     pub stuck: Option<String>,
     pub log: Vec<LogEntry>,
+    /// operations in the order in which they finished: (index of the executed
+    /// step that ended it, client, index in the client's program)
+    pub finished: Vec<(usize, usize, usize)>,
 }
 
 pub fn kind_of(e: &LogEntry) -> String {
@@ -65,6 +68,7 @@ pub async fn drive(
     let mut results: Vec<Vec<String>> = vec![Vec::new(); n];
     let mut executed = Vec::new();
     let mut stuck = None;
+    let mut finished = Vec::new();
     let mut pos = 0usize;
     let mut rr = 0usize;
     loop {
@@ -104,6 +108,7 @@ pub async fn drive(
         while let Some(note) = ctl.take_note(c) {
             if let Some(r) = note.strip_prefix("done:") {
                 results[c].push(r.to_string());
+                finished.push((executed.len().saturating_sub(1), c, done[c]));
                 done[c] += 1;
                 got = true;
             }
@@ -121,7 +126,7 @@ pub async fn drive(
     let log = hub.take_log();
     let kinds = log.iter().map(kind_of).collect();
     let paths = log.iter().map(|e| e.info.path.clone()).collect();
-    SchedRun { executed, kinds, paths, results, stuck, log }
+    SchedRun { executed, kinds, paths, results, stuck, log, finished }
 }
 
 /// All sequences over 0..n of the given length (for small exhaustive sweeps).
